@@ -99,6 +99,9 @@ struct Sys {
         int known[NA][2];                          // last 7-bit value sent by the controller of that half, -1 unknown
         bool diverged = false, pruned = false;
         int rep[3] = {0, 0, 0};                    // fate of the last free-report per controller: 0 none, 1 in flight, 2 answered, 3 ignored
+        bool snap_since[3] = {false, false, false};// a snapshot reached the realtime half since the controller's last free-report
+        int dup[3] = {0, 0, 0};                    // a controller was reported free while its previous report / assignment was still under way:
+                                                   // 1 with no snapshot delivered in between, 2 after a snapshot (part of the canon)
                                                    // (only names the shape class of a finding; not part of the canon)
         Inst()
         {
@@ -292,7 +295,10 @@ struct Sys {
         // A report while the previous report of the same controller (or its assignment) is still in flight is not
         // flagged here: the statement speaks about assignments, and the consequence is checked where the report is
         // delivered (a controller must not end up assigned to a second address).
-        if(emitted) for(int x = 0; x < 3; ++x) if(IDS[x] == id) I.rep[x] = 1;
+        if(emitted) for(int x = 0; x < 3; ++x) if(IDS[x] == id) {
+            if(forbidden || bind_in_flight) I.dup[x] = I.snap_since[x] ? 2 : 1;
+            I.rep[x] = 1; I.snap_since[x] = false;
+        }
         if(check) vp::outcome(std::string("cc-unassigned:") + (emitted ? "reported-free" : "silent") + (required ? ":required" : forbidden ? (use_in_flight ? ":report-in-flight" : ":assignment-in-flight") : ":optional"));
         return true;
     }
@@ -355,6 +361,7 @@ struct Sys {
             rtosc::MidiMapperRT::ports.dispatch(m.bytes.data() + strlen("/midi-learn/"), d);
             if(d.matches != 1) { bad(I, check, "protocol|deliver-n2r|message-not-understood", "MidiMapperRT::ports matched '" + vp::show(m.bytes.substr(0, 32)) + "' " + std::to_string(d.matches) + " times"); return; }
             if(m.kind == K_BIND) {
+                for(int x = 0; x < 3; ++x) I.snap_since[x] = true;
                 for(int a = 0; a < NA; ++a) for(int k = 0; k < 2; ++k) if(m.snap.a[a][k] != I.view.a[a][k] || m.snap.a[a][k] == -1) I.known[a][k] = -1;
                 I.view = m.snap;
             }
@@ -375,7 +382,8 @@ struct Sys {
                     // produces exactly one message, so one of the two addresses would never be driven).
                     int n = 0; std::string where;
                     for(int a = 0; a < NA; ++a) { if(I.nrt.getCoarse(PORT[a].path) == id) { ++n; where += std::string(PORT[a].path) + ":coarse "; } if(I.nrt.getFine(PORT[a].path) == id) { ++n; where += std::string(PORT[a].path) + ":fine "; } }
-                    if(n > 1) { bad(I, check, "double-assignment|useFreeID|controller-already-assigned", "controller " + std::to_string(id) + " was already assigned (" + show_snap(I.assign) + ") when a second free-report for it was delivered; it is now assigned to " + where); return; }
+                    int du = 0; for(int x = 0; x < 3; ++x) if(IDS[x] == id) du = I.dup[x];
+                    if(n > 1) { bad(I, check, std::string("double-assignment|useFreeID|controller-already-assigned,") + (du == 1 ? "reported-twice-with-no-snapshot-in-between" : "reported-again-after-a-snapshot"), "controller " + std::to_string(id) + " was already assigned (" + show_snap(I.assign) + ") when a second free-report for it was delivered; it is now assigned to " + where); return; }
                     I.pruned = true; if(check) vp::outcome("dontcare:free-report-of-an-assigned-controller-delivered:pruned"); return;
                 }
                 auto h = I.fifo.front(); I.fifo.pop_front();
@@ -474,6 +482,7 @@ struct Sys {
         s += "assign:"; for(int a = 0; a < NA; ++a) { put(s, I.assign.a[a][0]); put(s, I.assign.a[a][1]); }
         s += "view:"; for(int a = 0; a < NA; ++a) { put(s, I.view.a[a][0]); put(s, I.view.a[a][1]); }
         s += "known:"; for(int a = 0; a < NA; ++a) { put(s, I.known[a][0]); put(s, I.known[a][1]); }
+        s += "dup:"; for(int x = 0; x < 3; ++x) { put(s, I.dup[x]); put(s, I.snap_since[x]); }
         return s;
     }
 };
@@ -559,9 +568,11 @@ int main(int argc, char **argv)
     for(int n : {30, 31}) {
         bfs::Hist h;
         for(int k = 0; k < n; ++k) { learn(h, 0, 0, k % 3, 1); h.push_back(OP_UNMAP + 0); h.push_back(OP_DN2R); }
-        E.late_roots.push_back({h, 6});
+        E.late_roots.push_back({h, 4});
+        h.push_back(OP_MAP + 2); h.push_back(OP_MAP + 4); h.push_back(OP_DN2R); h.push_back(OP_DN2R);      // /q and /r queued and announced
+        E.late_roots.push_back({h, 5});
     }
-    vp::bound("cycle_roots", "2 states: 30 and 31 completed cycles of map(/p) - CC - handshake - unMap(/p), which move the realtime half's ring of pending controllers to its last slots; all histories of <= 6 further events from each");
+    vp::bound("cycle_roots", "4 states: 30 and 31 completed cycles of map(/p) - CC - handshake - unMap(/p), which move the realtime half's ring of pending controllers to its last slots, alone (all histories of <= 4 further events) and with /q and /r queued and announced (<= 5 further events)");
     // the result files of the two engines must not collide
     vp::Ctx &C = vp::ctx(); std::string keep_out = C.out;
     if(!C.out.empty()) C.out = C.out.substr(0, C.out.size() - 5) + "_v" + std::string(1, variant) + ".json";
